@@ -39,7 +39,7 @@ OBLIGATIONS = [
                "thorough": [_c("s%d" % i, sel=[i]) for i in range(N)]},
         desc="real chain: child node (every cap kind) -> pack_children under the parent's writekey (real AES/SHA) -> _unpack_contents through the parent's read cap "
              "(SDMF and MDMF parent) -> child has no write authority (no write uri, read-only or opaque, no writekey), same read cap; child directories list their "
-             "children read-only as well; through the parent's write cap the child's write cap is recovered exactly; cleartext does not contain the write cap"),
+             "children read-only as well; through the parent's write cap the child's write cap is recovered exactly (also with one NodeMaker whose node cache was warmed by a listing through the write cap first); cleartext does not contain the write cap"),
     chx("nodemaker_ro", "C18_h", "h_nodemaker_ro", timeout=T,
         cases={"quick": [_c("g%d" % i, sel=list(range(i, N, 3))) for i in range(3)],
                "thorough": [_c("s%d" % i, sel=[i]) for i in range(N)]},
